@@ -44,6 +44,7 @@ NE = 256
 GOOD_FNS = (0, 1, 2, 3)
 ALWAYS_BAD = (4, 5, 6)
 KEY_BAD = (7, 8, 9)
+SIZE_BAD = (10, 11, 12)  # in range for some table sizes only (harness/hash.c h10..h12)
 BIG = 1 << 36            # bucket counts above this are refused by the allocation interposer
 
 
@@ -316,6 +317,15 @@ def oracle(prop, script, c_lines):
         if st is None:
             return "op %d '%s': unparsable implementation output '%s'" % (i, op, line[:200])
         res, calls, rl, evs, tabs = st
+        if prop == "C17":
+            # the operation completed: none of the hash calls it made may have returned m or more
+            for (cf, ck, cm) in calls:
+                if cf == "overflow":
+                    continue
+                v = fn_value(cf, ck, cm)
+                if v is not None and v >= cm:
+                    return ("op %d '%s': hash function %d returned %d for key %d and table size %d, but the "
+                            "operation that invoked it did not abort" % (i, op, cf, v, ck, cm))
         for k in (0, 1):
             if tabs[k].bad:
                 return "op %d '%s': table %d: inconsistent bucket array / chain links" % (i, op, k)
@@ -469,6 +479,34 @@ def _held_fns(dump):
 
 def _is_bad(f, key):
     return f in ALWAYS_BAD or (f in KEY_BAD and key is not None and key % 4 == 3)
+
+
+def fn_value(f, k, m):
+    """what caller-supplied function f of harness/hash.c returns for (k, m); None for the
+    built-in function 0 (its range is the subject of the other half of C17)"""
+    M = 1 << 64
+    modm = (k % m) if m else 0
+    if f == 1:
+        return modm
+    if f == 2:
+        return ((k // 2) % m) if m else 0
+    if f == 3:
+        return 0
+    if f == 4:
+        return m
+    if f == 5:
+        return (m + 1) % M
+    if f == 6:
+        return M - 1
+    if f in (7, 8, 9):
+        return modm if k % 4 != 3 else (m, (m + 1) % M, M - 1)[f - 7]
+    if f == 10:
+        return k % 8
+    if f == 11:
+        return modm if m >= 4 else (m if k % 2 else 0)
+    if f == 12:
+        return modm if m <= 4 else ((m + 1) % M if k % 4 == 3 else modm)
+    return None
 
 
 # ---------------------------------------------------------------------------
@@ -686,9 +724,18 @@ def c17b_scripts(rng=None, nrandom=0):
                 out.append(["resize 0 4 %d 1" % b, "ins 0 4 2", "ins 0 9 4", "ins 0 2 5", "resize 0 8 1 1", op,
                             "find 0 3 n", "find 0 7 n"])
                 out.append(["resize 0 4 %d 1" % b, "ins 0 4 2", "ins 0 9 4", "ins 0 2 5", op, "find 0 3 n"])
+    # functions that are in range for the size they were installed with and out of range for another:
+    # table filled while the function behaves, then a resize that KEEPS the function ('-'), then
+    # every kind of operation (the offending result is produced for a node being moved)
+    fill2 = ["ins 0 %d %d" % (k, e) for e, k in enumerate((1, 2, 3, 5, 6, 7, 9, 11, 13, 4, 12), 1)]
+    for b, n0, targets in ((10, 8, (4, 2, 16, 3)), (11, 4, (2, 3, 1, 8)), (12, 4, (8, 5, 16, 2)), (12, 2, (6,))):
+        for n in targets:
+            for op in keyed + others + ["find 0 1 n", "find 0 2 n", "find 0 5 n", "find 0 6 n", "erase 0 4", "ins 0 8 20"]:
+                out.append(["resize 0 %d %d 1" % (n0, b)] + fill2 + ["resize 0 %d - 1" % n, op, "find 0 4 n", "rehash 0"])
+                out.append(["resize 0 %d %d 1" % (n0, b)] + fill2 + ["resize 0 %d - 1" % n, "find 0 4 n", op, "rehash 0"])
     if rng is not None:
         for sc in random_scripts(rng, nrandom, 60, nkeys=12, maxn=8, nelem=40,
-                                 fns=GOOD_FNS + ALWAYS_BAD + KEY_BAD + KEY_BAD, bad=True):
+                                 fns=GOOD_FNS + ALWAYS_BAD + KEY_BAD + KEY_BAD + SIZE_BAD + SIZE_BAD, bad=True):
             out.append(sc)
     return [truncate_to_domain(sc, True) for sc in out]
 
